@@ -282,6 +282,13 @@ where
             }
         }
     }
+    // a task that kept reading a socket on which nothing can arrive any more
+    if out.violation.is_none() && out.harness_error.is_none() {
+        if let Some(what) = net::with_net(|n| n.spin.take()) {
+            out.violation = Some(vcore::Violation::new("TASK/livelock/task-keeps-reading-a-dead-socket", what));
+            out.nontrivial = true;
+        }
+    }
     net::teardown();
     out
 }
